@@ -119,14 +119,14 @@ theorem flags_split (env : Env) (enc : Bytes) (hcomma : env.isSpace ',' = false)
 
 /-! ## loading -/
 
-/-- **load_spells_partial** — `load_spells` of the design for every line class except source references (`#:`), and
-    stated on the lines `Codecs.open` hands to polib (the decode / `Codecs.open` / charset-detection layers are the separate
-    theorems below; see OUTSTANDING in DESIGN-notes/po.md).
+/-- **load_spells_partial** — `load_spells` of the design, stated on the lines `Codecs.open` hands to polib (the decode /
+    `Codecs.open` / charset-detection layers are the separate theorems below; composing them into one statement about the
+    file's bytes is OUTSTANDING, see DESIGN-notes/po.md).
 
     For every catalog and every spelling of it (`CatalogSp`): noise lines (white-space lines, `#~| …`, bare `#.` `#:` `#,`)
     anywhere except after the last line; the file's header comment as `# text` lines; per entry any interleaving of
-    translator comments `# text`, extracted comments `#. text`, flag lines `#, a, b` (any white space around the items, empty
-    and duplicate items kept), previous-msgid annotations `#| msgctxt/msgid/msgid_plural "…"` with `#| "…"` continuation lines,
+    translator comments `# text`, extracted comments `#. text`, source references `#: file:12 name …`, flag lines `#, a, b`
+    (any white space around the items, empty and duplicate items kept), previous-msgid annotations `#| msgctxt/msgid/msgid_plural "…"` with `#| "…"` continuation lines,
     and noise; then `msgctxt`? `msgid` (`msgstr` | `msgid_plural` `msgstr[0]` … `msgstr[N]`, N ≤ 9) behind the obsolete marker
     `#~` or not; every string spelled with any valid per-character choices (raw, letter escapes, octal/hex escaped bytes of
     the file's charset) and cut anywhere into continuation lines, empty segments included; blanks/tabs before a message line
@@ -134,21 +134,23 @@ theorem flags_split (env : Env) (enc : Bytes) (hcomma : env.isSpace ',' = false)
 
     polib's line loop with the patches, in any environment where the charset is ASCII-transparent and decodes what it
     encodes, yields exactly: the header comment, and for every entry in order its msgctxt, msgid, msgid_plural, msgstr,
-    indexed plural strings, flags, obsolete flag, previous msgctxt/msgid/msgid_plural, extracted and translator comments
-    (everything but the line number polib records). -/
-theorem load_spells_partial (E : Codec) (env : Env) (hsp : env.isSpace = pyIsSpace) (hdec : env.decimal = pyDecimal) (enc : Bytes)
+    indexed plural strings, flags, obsolete flag, previous msgctxt/msgid/msgid_plural, source references, extracted and
+    translator comments (everything but the line number polib records). -/
+theorem load_spells_partial (E : Codec) (env : Env) (hsp : env.isSpace = pyIsSpace) (hdig : env.isDigit = pyIsDigit)
+    (hdec : env.decimal = pyDecimal) (enc : Bytes)
     (hE : CodecOk env enc E) (cat : CatalogSp) (hv : cat.Valid E) :
     ∃ f, parseLines env enc cat.lines = .ok f ∧ f.header = cat.headerText ∧
       f.entries.map Lemmas.PoCatalog.content = cat.entries.map EntrySp.entry :=
-  Lemmas.PoComments.parse_catalog E env hsp enc hE hdec cat hv
+  Lemmas.PoComments.parse_catalog E env hsp enc hE hdig hdec cat hv
 
 /-- attribution: the comment fields of an entry are exactly what its own comment lines say, whatever surrounds it
     (a corollary of the shape of `EntrySp.entry`, spelled out for the reader) -/
 theorem comments_attributed (e : EntrySp) :
     e.entry.flags = (e.comments.foldl CommentSp.apply {}).flags ∧ e.entry.comment = (e.comments.foldl CommentSp.apply {}).comment ∧
     e.entry.tcomment = (e.comments.foldl CommentSp.apply {}).tcomment ∧
+    e.entry.occurrences = (e.comments.foldl CommentSp.apply {}).occurrences ∧
     e.entry.previousMsgid = (e.comments.foldl CommentSp.apply {}).previousMsgid ∧ e.entry.obsolete = e.msg.pre.isObsolete :=
-  ⟨rfl, rfl, rfl, rfl, rfl⟩
+  ⟨rfl, rfl, rfl, rfl, rfl, rfl⟩
 
 /-- non-vacuity: `msgid "a"` / `msgstr ""` / `"b\n"` followed by a bare `#.` inside the entry -/
 def sampleMsg : MsgSp where
@@ -171,14 +173,16 @@ def sampleCatalog : CatalogSp where
   noiseA := [.blank ['\n']]
   header := [⟨"hdr".toList, ['\n']⟩]
   noiseB := []
-  entries := [⟨[.extracted ' ' "x".toList ['\n'], .flags ' ' [⟨[], "fuzzy".toList, []⟩, ⟨[' '], "c-format".toList, []⟩] ['\n']], sampleMsg⟩]
+  entries := [⟨[.extracted ' ' "x".toList ['\n'], .refs ' ' [([], .withLine "a.c".toList [1, 2]), ([' '], .noLine "b".toList)] ['\n'],
+                .flags ' ' [⟨[], "fuzzy".toList, []⟩, ⟨[' '], "c-format".toList, []⟩] ['\n']], sampleMsg⟩]
 
 example : sampleCatalog.lines =
-    ["\n".toList, "# hdr\n".toList, "#. x\n".toList, "#, fuzzy, c-format\n".toList,
+    ["\n".toList, "# hdr\n".toList, "#. x\n".toList, "#: a.c:12 b\n".toList, "#, fuzzy, c-format\n".toList,
      "msgid \"a\"\n".toList, "msgstr \"\"\n".toList, "#.\n".toList, "\"b\\n\"\n".toList] := by decide
 
 example : sampleCatalog.entries.map EntrySp.entry =
-    [{ msgid := ['a'], msgstr := some ['b', '\n'], comment := ['x'], flags := ["fuzzy".toList, "c-format".toList] }] := by decide
+    [{ msgid := ['a'], msgstr := some ['b', '\n'], comment := ['x'], flags := ["fuzzy".toList, "c-format".toList],
+       occurrences := [("a.c".toList, "12".toList), ("b".toList, [])] }] := by decide
 
 example : sampleCatalog.headerText = "hdr".toList := by decide
 
